@@ -276,6 +276,20 @@ class Driver:
                 self.proc.kill()
 
 
+def run_in_mode(prop, env_extra, cases, timeout=1500):
+    """run `run_case` of a property module on (kind, params) cases in a subprocess with extra environment
+    (numba execution mode); returns list of message lists"""
+    env = dict(os.environ)
+    env.update(env_extra)
+    inp = "\n".join(json.dumps(jsonable({"kind": k, "params": p})) for k, p in cases) + "\n"
+    pr = subprocess.run([sys.executable, os.path.join(HERE, "worker.py"), prop], input=inp, capture_output=True,
+                        text=True, env=env, timeout=timeout)
+    out = [json.loads(l) for l in pr.stdout.splitlines() if l.startswith("[")]
+    if len(out) != len(cases):
+        raise RuntimeError(f"worker for {prop} {env_extra} returned {len(out)} of {len(cases)} results: {pr.stderr[-400:]}")
+    return out
+
+
 def rat(x):
     """exact rational text of a Python / NumPy number"""
     fr = Fraction(x) if not isinstance(x, Fraction) else x
